@@ -73,6 +73,24 @@ def small_variants(tier: str) -> List[Dict[str, Any]]:
     return v
 
 
+def c14_variants(tier: str) -> List[Dict[str, Any]]:
+    """(layout = package depth, accepted prefix, number of accepted packages, import form)"""
+    def acc(prefix: str, n: int) -> List[str]:
+        return [prefix] + ["filler_pkg_%d" % i for i in range(n - 1)]
+    v = []
+    combos = [("one", "vpkg", 1, "from", 1.0), ("split", "vpkg.sub_f1", 1, "from", 0.0),
+              ("deep", "vpkg", 2, "from_as", 0.5), ("deep", "vpkg.a.b", 1, "module", 0.5),
+              ("deep", "vpkg.a.b.c.d", 1, "from", 1.0), ("deep6", "vpkg.a.b.c.d.e", 5, "module_as", 0.5),
+              ("deep6", "vpkg.a", 40, "from", 0.5), ("deep6", "vpkg.a.b.c.d.e", 1, "from", 0.5)]
+    for (lay, prefix, n, imp, frac) in combos:
+        if frac == 0.0:
+            continue
+        x = _v("local", "local", [lay], imp, 1.0 if tier == "thorough" else frac)
+        x["accept"] = acc(prefix, n)
+        v.append(x)
+    return v
+
+
 def _nt_served(hist) -> bool:
     ev = [r for r in hist if r["op"] == "eval"]
     return any(len(r["req"]) and len(r["stored"]) < len(r["req"]) for r in ev[1:])
@@ -111,6 +129,22 @@ FAMILY: Dict[str, Dict[str, Any]] = {
         nontrivial=lambda hist: any(r["op"] == "eval" and isinstance(r["err"], list) and r["err"][:1] == ["raise"] for r in hist),
         rule="history with one function switched to fail (every function of the shape x exception class); non-trivial "
              "when the failing body is actually reached (the specification predicts the raise)"),
+    "C11": dict(
+        shapes=lambda tier: shp.illformed_shapes(tier), plans=lambda tier: [["eval"], ["evalB", "eval2"], ["evalB", "eval"]],
+        variants=lambda tier: [_v("local", "local", ["one"], "from", 1.0), _v("memory", "memory", ["half"], "from", 0.5 if tier == "quick" else 1.0)],
+        oracle=oracles.c11, design_cfg="DdsEval_c11.cfg",
+        nontrivial=lambda hist: any(r["op"] == "eval" and r["err"] not in ("", []) for r in hist),
+        rule="one evaluation of an ill-formed shape (overlapping kept paths in every order and placement, call cycles of "
+             "length 1..4 through calls / keeps / references / methods, nested dds.eval at depth 1..3) on a fresh and on a "
+             "populated store, plus well-formed neighbours; non-trivial when the specification rejects the evaluation"),
+    "C14": dict(
+        shapes=lambda tier: shp.boundary_shapes() + shp.core_shapes()[:2] + shp.vtype_shapes(["bool"]),
+        plans=lambda tier: [["eval", "edit", "eval", "revert", "eval"], ["evalB"], ["eval2", "edit", "eval2"]],
+        variants=lambda tier: c14_variants(tier), oracle=oracles.c14,
+        nontrivial=lambda hist: any(r["op"] == "edit" for r in hist) or any(r["op"] == "eval" and r["err"] not in ("", []) for r in hist),
+        rule="history over a pipeline that crosses the accepted / non-accepted boundary, replayed under (package depth, "
+             "accepted prefix depth, number of accepted packages, import form); non-trivial when it edits one side of "
+             "the boundary or must be refused"),
     "C15": dict(
         shapes=lambda tier: shp.core_shapes() + shp.load_shapes()[:1], plans=lambda tier: P_STAGES,
         variants=small_variants, oracle=oracles.c15, stages=lambda tier: [1, 2, 3, 4, 5], extra=lambda rep, tier: c15_extra(rep, tier),
@@ -189,7 +223,8 @@ def run_family(prop: str, tier: str) -> int:
     kinds_seen: Dict[str, int] = {}
     for sk in sorted(set(v["spec_store"] for v in variants)):
         r = evalfam.tlc_design(_shapes_for(S, sk), plans, max_ver, sk, "package", ["one", "split"],
-                               name="design_" + sk, stages=stages, fail_classes=fails)
+                               name="design_" + sk, stages=stages, fail_classes=fails,
+                               cfg=fam.get("design_cfg", "DdsEval_design.cfg"))
         states += r.distinct
         trans += r.generated
     rep.cov["states"] = states
@@ -227,8 +262,11 @@ def run_family(prop: str, tier: str) -> int:
         if vi == 0:
             ref_checked = evalfam.reference_check(items, limit=300 if tier == "quick" else 2000)
         remaining = max(10.0, t_budget - (time.time() - t0))
-        res = evalfam.replay_many(items, v["real_store"], loads=bool(fam.get("loads")), budget_s=remaining)
+        res = evalfam.replay_many(items, v["real_store"], loads=bool(fam.get("loads")), budget_s=remaining,
+                                  accept=v.get("accept"))
         realisation = "store=%s,layouts=%s,import=%s" % (v["real_store"], "/".join(v["layouts"]), v["imp"])
+        if v.get("accept"):
+            realisation += ",accept=%s+%d" % (v["accept"][0], len(v["accept"]) - 1)
         for ((shape, hist), obs) in zip(items, res):
             if obs is None:
                 continue
